@@ -237,9 +237,9 @@ def run_job(job):
 def make_jobs(tier, seed):
     rng = random.Random(170000 + seed)
     jobs = []
-    for i in range(64 if tier == 'quick' else 4000):
+    for i in range(64 if tier == 'quick' else 10000):
         jobs.append({'kind': 'pure', 'seed': rng.randrange(1 << 30), 'n': 3000})
     jobs.append({'kind': 'tf', 'seed': rng.randrange(1 << 30)})
-    for i in range(16 if tier == 'quick' else 1600):
+    for i in range(16 if tier == 'quick' else 4000):
         jobs.append({'kind': 'acc', 'seed': rng.randrange(1 << 30), 'n': 120})
     return jobs
